@@ -487,6 +487,26 @@ func (g *GoBackNConn) sendPacketsForever() error {
 				if err := resendQueue(); err != nil {
 					return err
 				}
+
+			case <-g.pingTicker.Ticks():
+				// The window is full, so we cannot queue a
+				// ping packet. The packets we keep resending
+				// already probe the peer though, so we only
+				// need to start the pong timer: it is paused
+				// again by the receive loop as soon as any
+				// packet arrives.
+				select {
+				case <-g.pongTicker.Ticks():
+					return errKeepaliveTimeout
+				default:
+				}
+
+				g.pongTicker.Reset()
+				g.pongTicker.Resume()
+				g.pingTicker.Reset()
+
+			case <-g.pongTicker.Ticks():
+				return errKeepaliveTimeout
 			}
 		}
 	}
